@@ -177,6 +177,9 @@ type Frame struct {
 	sliceObjs map[ssa.Value]*PtrVal
 	// source-level names of SSA values (from DebugRef): latest binding wins
 	names map[string]ssa.Value
+	// the store iterator a loop walks (the most recent one when the loop is first entered): it_idx, it_seq ... of the
+	// loop's invariants refer to it, also after iterators created inside the body
+	loopIter map[*ssa.BasicBlock]int
 }
 
 type loopCtx struct {
@@ -828,6 +831,12 @@ func (f *Frame) fork() *Frame {
 		n.sliceObjs = make(map[ssa.Value]*PtrVal, len(f.sliceObjs))
 		for k, v := range f.sliceObjs {
 			n.sliceObjs[k] = v
+		}
+	}
+	if f.loopIter != nil {
+		n.loopIter = make(map[*ssa.BasicBlock]int, len(f.loopIter))
+		for k, v := range f.loopIter {
+			n.loopIter[k] = v
 		}
 	}
 	return &n
